@@ -770,12 +770,20 @@ func (fc *FnCtx) ret(x *ssa.Return) {
 	}
 	env := fc.returnEnv(x, results)
 	for _, en := range fc.c.Ensures {
-		t, err := fc.specBool(env, en.Text)
+		t, sks, err := fc.specBoolGoal(env, en.Text)
 		if err != nil {
 			fc.unbound = append(fc.unbound, fmt.Sprintf("ensures %q: %v", en.Text, err))
 			continue
 		}
-		fc.oblige("ensures", en.Text, x.Pos(), t)
+		o := fc.oblige("ensures", en.Text, x.Pos(), t)
+		fc.addInsts(o, env, sks)
+		if len(sks) > 0 {
+			fc.dropLastAssertFact()
+			if qt, qerr := fc.specBool(env, en.Text); qerr == nil {
+				fc.seq++
+				fc.facts = append(fc.facts, Fact{blk: fc.curBlk, seq: fc.seq, t: qt, isAssert: true})
+			}
+		}
 	}
 	if fr, ok := fc.funcFrame(fc.cur); ok {
 		fc.oblige("frame", "modifies", x.Pos(), fr)
